@@ -157,6 +157,12 @@ class ImageFormation(HoloPyObject):
         coords = {
             point_or_flat: flattened_schema.coords[point_or_flat],
             vector: ['x', 'y', 'z']}
+        if point_or_flat == 'point':
+            # the positions of a point detector are non-index coordinates
+            # along 'point' (x, y, z or r, theta, phi); keep them
+            coords.update({
+                name: coord for name, coord in flattened_schema.coords.items()
+                if coord.dims == ('point',) and name != 'point'})
         scattered_field = xr.DataArray(
             scattered_field, dims=[point_or_flat, vector], coords=coords,
             attrs=schema.attrs)
